@@ -18,15 +18,16 @@ type Ty struct {
 	Src      string
 	Conc     string
 	Gen      string
-	Cmp      bool   // usable as map key / comparable type argument
-	Faithful bool   // encoding/json round-trips every generated value (C15)
-	JSONOK   bool   // json.Marshal does not fail for values of this type
-	TagRule  string // "omit" | "plain" | "either": omitempty rule for the Mutable twin's json tag
-	Opt      *Ty    // inner type of an fp.Option
-	IsPtr    bool   // unnamed pointer type (excluded by @fp.RequiredArgsConstructor)
+	Cmp      bool     // usable as map key / comparable type argument
+	Faithful bool     // encoding/json round-trips every generated value (C15)
+	JSONOK   bool     // json.Marshal does not fail for values of this type
+	TagRule  string   // "omit" | "plain" | "either": omitempty rule for the Mutable twin's json tag
+	Opt      *Ty      // inner type of an fp.Option
+	IsPtr    bool     // unnamed pointer type (excluded by @fp.RequiredArgsConstructor)
 	Imports  []string // import specs needed by Src in the input package
 	Decls    []string // extra top-level declarations needed by Gen in the law test
 	UsesTP   []string // names of the struct's type parameters occurring in Src
+	InstNull bool     // type parameter whose instantiation has null-encoding values
 }
 
 func (t *Ty) merge(cs ...*Ty) *Ty {
@@ -185,6 +186,13 @@ func ContextT() *Ty {
 	return iface("iface", "context.Context", "context.Context", "either", true, []string{`"context"`}, "context.Background()", "context.TODO()")
 }
 
+// HlistT is the imported generic struct type of testpk2.Person.list.
+func HlistT() *Ty {
+	c := "hlist.Cons[string, hlist.Cons[int, hlist.Nil]]"
+	return &Ty{FK: "imported", Src: c, Conc: c, Gen: "lwG[" + c + "](func(r *lwRand, nn bool) " + c + " { return hlist.Of2(lwStr[string]()(r, false), lwInt[int]()(r, false)) })",
+		Cmp: true, JSONOK: true, TagRule: "plain", Imports: []string{`"github.com/csgura/fp/hlist"`}}
+}
+
 func OSFilePtrT() *Ty {
 	return &Ty{FK: "ptr", Src: "*os.File", Conc: "*os.File", Gen: "lwPick[*os.File](nil, os.Stdin, os.Stdout, os.Stderr)", Cmp: true, JSONOK: true, TagRule: "omit", IsPtr: true, Imports: []string{`"os"`}}
 }
@@ -196,8 +204,8 @@ func (t *Ty) Nullable() bool {
 	switch t.FK {
 	case "ptr", "slice", "bytes", "map", "option", "any", "iface", "seq", "func", "chan", "either":
 		return true
-	case "tparam", "named", "imported":
-		return false
+	case "tparam":
+		return t.InstNull
 	}
 	return false
 }
@@ -300,9 +308,18 @@ func Func1T(id string, a, r *Ty) *Ty {
 // ChanT: dir 0 = chan, 1 = chan<-, 2 = <-chan.
 func ChanT(dir int, e *Ty) *Ty {
 	pre := []string{"chan ", "chan<- ", "<-chan "}[dir]
+	// `chan <-chan T` parses as `chan<- (chan T)`: a receive-only element needs parentheses
+	elS, elC := e.Src, e.Conc
+	if strings.HasPrefix(elC, "<-") {
+		elS, elC = "("+elS+")", "("+elC+")"
+	}
 	c := pre + e.Conc
-	g := fmt.Sprintf("lwG[%s](func(r *lwRand, nn bool) %s { if !nn && r.n(4) == 0 { return nil }; return make(chan %s, 1) })", c, c, e.Conc)
-	t := &Ty{FK: "chan", Src: pre + e.Src, Conc: c, Gen: g, Cmp: true, TagRule: "omit"}
+	src := pre + e.Src
+	if dir == 0 {
+		c, src = pre+elC, pre+elS
+	}
+	g := fmt.Sprintf("lwG[%s](func(r *lwRand, nn bool) %s { if !nn && r.n(4) == 0 { return nil }; return make(chan %s, 1) })", c, c, elC)
+	t := &Ty{FK: "chan", Src: src, Conc: c, Gen: g, Cmp: true, TagRule: "omit"}
 	return t.merge(e)
 }
 
@@ -416,6 +433,6 @@ func StructRefT(s *Struct) *Ty {
 // TParamT is a field whose type is the struct's type parameter `name`, instantiated by inst
 // in the law test.
 func TParamT(name string, inst *Ty) *Ty {
-	t := &Ty{FK: "tparam", Src: name, Conc: inst.Conc, Gen: inst.Gen, Cmp: inst.Cmp, Faithful: inst.Faithful, JSONOK: inst.JSONOK, TagRule: "plain", Decls: inst.Decls, UsesTP: []string{name}}
+	t := &Ty{FK: "tparam", Src: name, Conc: inst.Conc, Gen: inst.Gen, Cmp: inst.Cmp, Faithful: inst.Faithful, JSONOK: inst.JSONOK, TagRule: "plain", Decls: inst.Decls, UsesTP: []string{name}, InstNull: inst.Nullable()}
 	return t
 }
